@@ -685,3 +685,102 @@ func sortFuncs(c *Ctx, fns []*ssa.Function) {
 		}
 	}
 }
+
+// ---- additional necessary condition found by the third round of seeded changes ----
+
+func init() {
+	reg := registry["C19"]
+	reg.Meta.Rules["C19.5"] = "persistence does not depend on rebalancing: in the attribute/link write paths no write-back (heap, index, object header) is control-dependent on a rebalancing option, statistic or state"
+	reg.Rules = append(reg.Rules, c19persistIndependent)
+}
+
+// derivesFromRebalancing: the value is computed from a rebalancing option/statistic (a call whose callee name mentions
+// Rebalanc/Lazy/Incremental stats, or a field whose name does).
+func (c *Ctx) derivesFromRebalancing(v ssa.Value, d int, seen map[ssa.Value]bool) bool {
+	if v == nil || d > 8 || seen[v] || isErrorType(v.Type()) {
+		return false
+	}
+	seen[v] = true
+	isR := func(s string) bool {
+		ls := strings.ToLower(s)
+		return strings.Contains(ls, "rebalanc") || strings.Contains(ls, "pendingdeletes") || strings.Contains(ls, "underflow")
+	}
+	switch x := v.(type) {
+	case *ssa.Call:
+		if isR(c.calleeName(x)) {
+			return true
+		}
+		if x.Call.IsInvoke() && isR(x.Call.Method.Name()) {
+			return true
+		}
+		// results of other calls are not rebalancing state, even when an option was passed in (e.g. an error result)
+	case *ssa.Extract:
+		return c.derivesFromRebalancing(x.Tuple, d+1, seen)
+	case *ssa.BinOp:
+		return c.derivesFromRebalancing(x.X, d+1, seen) || c.derivesFromRebalancing(x.Y, d+1, seen)
+	case *ssa.UnOp:
+		if f, _ := fieldOfAddr(x.X); f != nil && isR(f.Name()) {
+			return true
+		}
+		return c.derivesFromRebalancing(x.X, d+1, seen)
+	case *ssa.FieldAddr:
+		if f, _ := fieldOfAddr(x); f != nil && isR(f.Name()) {
+			return true
+		}
+	case *ssa.Convert:
+		return c.derivesFromRebalancing(x.X, d+1, seen)
+	case *ssa.Phi:
+		for _, e := range x.Edges {
+			if c.derivesFromRebalancing(e, d+1, seen) {
+				return true
+			}
+		}
+	}
+	return false
+}
+
+func c19persistIndependent(c *Ctx, r *Result) {
+	isPersist := func(n string) bool {
+		return hasSuffixAny(n, "WritableFractalHeap.WriteAt", "WritableBTreeV2.WriteAt", "WritableFractalHeap.WriteToFile", "WritableBTreeV2.WriteToFile") ||
+			n == "core.WriteObjectHeader" || n == "core.RewriteObjectHeaderV2"
+	}
+	n := 0
+	for _, fn := range c.LibFuncs() {
+		if shortPkg(fnPkgPath(fn)) != "hdf5" {
+			continue
+		}
+		var persists []ssa.Instruction
+		for _, site := range callsIn(fn) {
+			if isPersist(callName(c, site)) {
+				persists = append(persists, site.(ssa.Instruction))
+			}
+		}
+		if len(persists) == 0 {
+			continue
+		}
+		// explicit maintenance entry points (RebalanceAttributeBTree, RebalanceAllBTrees, ForceBatchRebalance ...) are about rebalancing by definition
+		if strings.Contains(strings.ToLower(fn.Name()), "rebalanc") {
+			continue
+		}
+		for _, p := range persists {
+			n++
+			bad := ""
+			for _, b := range fn.Blocks {
+				ifi, ok := b.Instrs[len(b.Instrs)-1].(*ssa.If)
+				if !ok || !c.derivesFromRebalancing(ifi.Cond, 0, map[ssa.Value]bool{}) {
+					continue
+				}
+				d0 := edgeDominates(b, b.Succs[0], p.Block())
+				d1 := edgeDominates(b, b.Succs[1], p.Block())
+				if d0 != d1 {
+					bad = c.InstrPos(ifi)
+				}
+			}
+			r.Check(bad == "", "C19.5", c.Name(fn)+"#"+lastSeg(callName(c, p.(ssa.CallInstruction)))+"#not-conditional-on-rebalancing", c.InstrPos(p), "this write-back happens (or not) depending on a rebalancing option/statistic tested at "+bad+": the content that reaches the file must be the same under every rebalancing configuration")
+		}
+	}
+	if n < 8 {
+		r.Errorf("C19.5: only %d write-back calls found in the attribute/link write paths", n)
+	}
+	r.Floor("C19.5", 8)
+}
